@@ -7,7 +7,7 @@ import c16_interact
 
 LEVEL = "proof"
 CLAIM = dict(cat="proof", design="§3 C16",
-   text="PROVED in Coq (59 theorems) for literal models. (1) Integer models on exact (dyadic / lattice) arithmetic, no axioms: AMR keys and tree (AMRGridCell / AMRGrid): for every "
+   text="PROVED in Coq (60 theorems) for literal models. (1) Integer models on exact (dyadic / lattice) arithmetic, no axioms: AMR keys and tree (AMRGridCell / AMRGrid): for every "
         "tree = every refinement history (C16_amr_trees_are_histories) and every block count 1..1024 per axis (odd ones included) get_first_key / get_next_key "
         "enumerate every single cell exactly once in depth first order and end with the sentinel, get_key(position) returns the key of the one cell whose box "
         "contains the position, operator[] inverts it, volumes sum to the box volume, refine_cell replaces exactly one cell by its 8 children, keys stay below "
